@@ -17,6 +17,15 @@ import (
 
 const verifDir = "/verif"
 
+// outDir is where evidence/ and replays/ are written: /verif, or $VERIF_OUT
+// (used when the checks are pointed at a scratch copy with a planted bug).
+func outDir() string {
+	if d := os.Getenv("VERIF_OUT"); d != "" {
+		return d
+	}
+	return verifDir
+}
+
 func usage() {
 	fmt.Fprintln(os.Stderr, "usage: vcheck run <property> [--tier quick|thorough] | replay <file> | selftest determinism [props]")
 	os.Exit(2)
